@@ -220,7 +220,7 @@ def O3(ctx):
 
 def M1(ctx):
     prog = ctx.prog
-    ev = {"track_load": ST + "track_load", "coherence": ST + "apply_load_coherence", "touch": "rt::atomic::FirstSeen::touch",
+    ev = {"track_load": ST + "track_load", "coherence": ST + "apply_load_coherence", "touch": first_seen_recorders(prog),
           "sync_load": "rt::synchronize::Synchronize::sync_load", "sync_store": "rt::synchronize::Synchronize::sync_store",
           "user_f": "std::ops::FnOnce::call_once", "store": ST + "store"}
     for fk, steps in ((ST + "load", ["track_load", "coherence", "touch", "sync_load"]),
@@ -358,7 +358,11 @@ def M2(ctx):
 def M4(ctx):
     """FirstSeen is write-once per thread: touch() records a version only if the thread has none yet."""
     prog = ctx.prog
-    fk = "rt::atomic::FirstSeen::touch"
+    rec = sorted(first_seen_recorders(prog))
+    if len(rec) != 1:
+        ctx.bad("M4", "rt::atomic::FirstSeen", "expected exactly one method recording first observations, found %s" % rec, detail="recorders")
+        return
+    fk = rec[0]
     fn = need_fn(ctx, "M4", fk)
     if fn is None:
         return
@@ -379,7 +383,7 @@ def M4(ctx):
     if ok:
         ctx.ok("M4", fk, "records the version only while the slot still holds the `unseen` marker (first observation wins)", [site_str(prog, fk, writes[0])])
     else:
-        ctx.bad("M4", fk, "FirstSeen::touch overwrites an already recorded first-seen version: a re-read moves the observation forward and "
+        ctx.bad("M4", "rt::atomic::FirstSeen::touch", "FirstSeen::touch overwrites an already recorded first-seen version: a re-read moves the observation forward and "
                 "coherence edges of threads that synchronised with the earlier state are lost", fn.loc())
 
 
@@ -647,9 +651,8 @@ def N3(ctx):
     fn = need_fn(ctx, "N3", fk)
     if fn is not None:
         arms = set()
-        for d in fn.body.defs().get(0, []):
-            if d[0] == "stmt":
-                arms.add(canon(strip(fn.body.expr_of_rvalue(d[3]["rv"]))).split(" as ")[-1])
+        for src in value_sources(fn.body, fn.body.expr_of_local(0)):
+            arms.add(canon(strip(src)).split(" as ")[-1])
         if arms == {"Ok.0", "Err.0"}:
             ctx.ok("N3", fk, "returns the previous value on success and on failure", [fn.loc()])
         else:
@@ -734,7 +737,7 @@ def N4(ctx):
         fn = need_fn(ctx, "N4", ck)
         if fn is None:
             continue
-        e = strip(fn.body.expr_of_local(0))
+        e = deep(prog, ck, strip(fn.body.expr_of_local(0)))
         txt = canon(e)
         if e[0] == "call" and e[1].endswith("Numeric::from_u64") and "rt::atomic::index(" in txt and re.search(r"\.cnt Sub(WithOverflow)? 1\)", txt) and ".value" in txt:
             ctx.ok("N4", enclosing_fn(ck), "T::from_u64(stores[index(cnt - 1)].value)", [fn.loc()])
@@ -749,12 +752,12 @@ def N4(ctx):
         for w in ws:
             if w["idx"] == "term":
                 t = w["stmt"]
-                lhs = canon(fn.body.expr_of_place(t["dest"]))
+                lhs = canon(deep(prog, dk, fn.body.expr_of_place(t["dest"])))
                 if callee_path(t).endswith("Numeric::into_u64") and "rt::atomic::index(" in lhs and re.search(r"\.cnt Sub(WithOverflow)? 1\)", lhs):
                     ok = True
             else:
-                e = fn.body.expr_of_rvalue(w["stmt"]["rv"])
-                lhs = canon(fn.body.expr_of_place(w["stmt"]["lhs"]))
+                e = deep(prog, dk, fn.body.expr_of_rvalue(w["stmt"]["rv"]))
+                lhs = canon(deep(prog, dk, fn.body.expr_of_place(w["stmt"]["lhs"])))
                 if "into_u64" in canon(e) and "rt::atomic::index(" in lhs and re.search(r"\.cnt Sub(WithOverflow)? 1\)", lhs):
                     ok = True
         if ok:
@@ -769,7 +772,7 @@ def N4(ctx):
         ok = False
         for (b, t, c) in prog.sites(inst):
             if prog.callee_key(c) == ST + "new":
-                a = strip(arg_expr(fn.body, t, 1))
+                a = strip(deep(prog, ck, arg_expr(fn.body, t, 1)))
                 ok = a[0] == "call" and a[1].endswith("Numeric::into_u64") and canon(a[2][0]) == prog.fns[RT + "new"].body.local_name(1)
         if ok:
             ctx.ok("N4", RT + "new", "State::new(value.into_u64())", [fn.loc()])
@@ -783,7 +786,7 @@ def N4(ctx):
         ok = False
         for (b, t, c) in prog.sites(inst):
             if prog.callee_key(c) == ST + "store":
-                a = strip(arg_expr(fn.body, t, 3))
+                a = strip(deep(prog, ck, arg_expr(fn.body, t, 3)))
                 ok = a[0] == "call" and a[1].endswith("Numeric::into_u64") and canon(a[2][0]) == prog.fns[RT + "store"].body.local_name(3)
         if ok:
             ctx.ok("N4", RT + "store", "state.store(.., val.into_u64(), ..)", [fn.loc()])
